@@ -65,6 +65,61 @@ type Probes struct {
 	IDs     []int // static id per dynamic call
 	Offs    []int // writer offset per dynamic call
 	Tag     string
+	// Writers, when set, receives the runtime's current Writer at every dynamic call (nil when the
+	// call comes from Go code that has no access to the runtime, e.g. a custom Ranger)
+	Writers *[]io.Writer
+}
+
+// IDs of the Go-level probes (user callbacks the interpreter calls: seam N7).
+const (
+	ProbeRangerID   = 8001 // inside a custom Ranger's Range()
+	ProbeRendererID = 8002 // inside a Renderer's Render()
+)
+
+// Hit is a probe call made from Go code (custom Ranger, Renderer): same bookkeeping and same
+// fault plan as fail(k).
+func (p *Probes) Hit(id int, w io.Writer) {
+	p.Calls++
+	p.IDs = append(p.IDs, id)
+	off := -1
+	if p.W != nil {
+		off = len(p.W.Buf)
+	}
+	p.Offs = append(p.Offs, off)
+	if p.Writers != nil {
+		*p.Writers = append(*p.Writers, w)
+	}
+	if (p.FailAt > 0 && p.Calls == p.FailAt) || (p.FailAt2 > 0 && p.Calls == p.FailAt2) {
+		p.Fired = true
+		p.NFired++
+		p.FiredID = id
+		panic(fmt.Errorf("INJ-%d-%s: simulated function failure", id, p.Tag))
+	}
+}
+
+// probeRanger is a custom index-providing Ranger whose Range() is a fault point.
+type probeRanger struct {
+	p     *Probes
+	items []string
+	i     int
+}
+
+func (r *probeRanger) Range() (reflect.Value, reflect.Value, bool) {
+	r.p.Hit(ProbeRangerID, nil)
+	if r.i >= len(r.items) {
+		return reflect.Value{}, reflect.Value{}, true
+	}
+	r.i++
+	return reflect.ValueOf(r.i - 1), reflect.ValueOf(r.items[r.i-1]), false
+}
+func (r *probeRanger) ProvidesIndex() bool { return true }
+
+// probeRenderer renders itself (bypassing the printer) and is a fault point.
+type probeRenderer struct{ p *Probes }
+
+func (r probeRenderer) Render(rt *jet.Runtime) {
+	r.p.Hit(ProbeRendererID, rt.Writer)
+	rt.Writer.Write([]byte("(rnd)"))
 }
 
 func (p *Probes) fn(arm bool) jet.Func {
@@ -83,6 +138,9 @@ func (p *Probes) fn(arm bool) jet.Func {
 			off = len(p.W.Buf)
 		}
 		p.Offs = append(p.Offs, off)
+		if p.Writers != nil {
+			*p.Writers = append(*p.Writers, a.Runtime().Writer)
+		}
 		if arm && ((p.FailAt > 0 && p.Calls == p.FailAt) || (p.FailAt2 > 0 && p.Calls == p.FailAt2)) {
 			p.Fired = true
 			p.NFired++
@@ -169,6 +227,8 @@ func Vars(d gen.DataSpec, p *Probes) jet.VarMap {
 	vm.SetFunc("fail", p.fn(true))
 	vm.SetFunc("mark", p.fn(false))
 	vm.Set("vfn", func(xs ...int) int { return len(xs) })
+	vm.Set("rng", &probeRanger{p: p, items: []string{"ra", "rb"}})
+	vm.Set("rnd", probeRenderer{p})
 	return vm
 }
 
@@ -441,9 +501,9 @@ func execWatch(s *jetSet, c Call, nestedAt map[int]bool) (Outcome, []io.Writer) 
 		o.GetErr = err.Error()
 		return o, writers
 	}
+	p.Writers = &writers
 	vm := Vars(c.Data, p)
 	inner := p.fn(false)
-	innerFail := p.fn(true)
 	// "is this call inside a try/exec?" is decided by comparing the runtime's current Writer with
 	// the one seen at the root template's first statement (mark 9000, top level by construction),
 	// not with the SimWriter itself: an implementation may legitimately wrap the caller's writer
@@ -456,12 +516,7 @@ func execWatch(s *jetSet, c Call, nestedAt map[int]bool) (Outcome, []io.Writer) 
 		if w0 != nil && cur != w0 {
 			nestedAt[p.Calls+1] = true
 		}
-		writers = append(writers, cur)
 		return inner(a)
-	})
-	vm.SetFunc("fail", func(a jet.Arguments) reflect.Value {
-		writers = append(writers, a.Runtime().Writer)
-		return innerFail(a)
 	})
 	data := c.Data.Data()
 	var xerr error
